@@ -90,7 +90,8 @@ def h_decode_raw(ctx, n):
     # the other two decoding entry points take the same octets and must agree with unpack()
     e2, u2 = call(CdsShortTimestamp.unpack_from_raw, data)
     # a reader created without views (lazy), holding any earlier value - possibly the very value it is about to read
-    reader = CdsShortTimestamp(ctx.int("reader_days", 0, 65535), ctx.int("reader_ms", 0, MS_DAY - 1), init_dt_unix_stamp=False)
+    rd0, rms0 = ctx.int("reader_days", 0, 65535), ctx.int("reader_ms", 0, MS_DAY - 1)
+    reader = CdsShortTimestamp(rd0, rms0, init_dt_unix_stamp=False)
     if ctx.symbolic:     # the views are the subject of the 'views' case; see h_add
         from symx.timestub import OpaqueDT
         reader._calculate_date_time = lambda: setattr(reader, "_datetime", OpaqueDT(reader._unix_seconds, "branch-free recorder"))
@@ -99,16 +100,21 @@ def h_decode_raw(ctx, n):
         ctx.holds("short input refused with BytesTooShortError", isinstance(e, BytesTooShortError), exc_name(e))
         ctx.holds("unpack_from_raw: short input refused with BytesTooShortError", isinstance(e2, BytesTooShortError), exc_name(e2))
         ctx.holds("read_from_raw: short input refused with BytesTooShortError", isinstance(e3, BytesTooShortError), exc_name(e3))
+        ctx.holds("a refused read leaves the reader's fields as they were", sym_and(reader.ccsds_days == rd0, reader.ms_of_day == rms0))
         return
     good_p = sym_and(((b[0] >> 4) & 7) == 4, ((b[0] >> 2) & 1) == 0)
     ctx.holds("unpack_from_raw and read_from_raw accept / refuse exactly like unpack",
               (type(e) is type(e2)) and (type(e) is type(e3)), "%s / %s / %s" % (exc_name(e), exc_name(e2), exc_name(e3)))
+    if e3 is not None:
+        ctx.holds("a refused read leaves the reader's fields as they were", sym_and(reader.ccsds_days == rd0, reader.ms_of_day == rms0))
     if e is None and e2 is None and e3 is None:
         ctx.holds("unpack_from_raw and read_from_raw return the same fields as unpack", sym_and(
             u2[0] == from_be(b[1:3]), u2[1] == from_be(b[3:7]), reader.ccsds_days == from_be(b[1:3]), reader.ms_of_day == from_be(b[3:7])))
         e4, secs = call(reader.as_unix_seconds)
         ctx.holds("after read_from_raw the unix-seconds view is the one of the fields just read (whatever the reader held before)",
                   e4 is None and float_eq(ctx, secs, ref_unix_seconds(from_be(b[1:3]), from_be(b[3:7]))), exc_name(e4))
+        ctx.holds("a reader packs the time code it read with this class's own P-field 0x40",
+                  call(lambda: reader.pack() == ctx.bytes_of([0x40] + b[1:7]))[1])
         e5, dt = call(reader.as_datetime)
         ctx.holds("after read_from_raw the datetime view exists", e5 is None and dt is not None, exc_name(e5))
     if e is not None:
